@@ -24,6 +24,16 @@ type c18Input struct {
 	EmptyName bool
 }
 
+// c18ConsumerParses: the consumer parses c18OtherInput with the callback parser after every record it receives.
+var c18ConsumerParses = false
+var c18OtherInput = func() string {
+	var sb strings.Builder
+	for r := 0; r < 120; r++ {
+		sb.WriteString(fmt.Sprintf("other%03d:\n  protein: %d\n  fat\n", r, r)) // (with malformed lines)
+	}
+	return sb.String()
+}()
+
 // isFile: the input is a path given to ParseFile (possibly the empty path).
 func (in c18Input) isFile() bool { return in.File != "" || in.EmptyName }
 
@@ -188,6 +198,11 @@ func c18RunModelAfter(x *Exec, first *c18Input, in c18Input, policy int) c18Obs 
 				// the consumer keeps the node and looks at it only when the stream is over
 				kept = append(kept, v.(*shared.ParserNode))
 				o.Events = append(o.Events, fmt.Sprintf("node#%d", len(kept)-1))
+				if c18ConsumerParses {
+					// a consumer that does something else with the package between two receives: it loads another file
+					// with the callback parser while the producer sits in the middle of its input
+					parser.ParseStreamCallback(strings.NewReader(c18OtherInput), parser.NewDefaultConfig(), func(*shared.ParserNode, error) (bool, error) { return false, nil })
+				}
 			case 1:
 				o.Events = append(o.Events, "error:"+v.(error).Error())
 				if policy == 0 {
@@ -293,7 +308,7 @@ func checkC18(w *Worker) {
 		x.Case(fmt.Sprint(ii, policy, o.Trace), refErr != "" || len(refEvents) > 1)
 		x.Sample(map[string]interface{}{"input": in.Name, "consumer": []string{"stop at first error", "drain until Done"}[policy], "schedule": o.Trace, "consumer_saw": o.Events, "deadlock": o.Deadlock})
 		k := key{ii, policy}
-		if first != nil {
+		if first != nil || c18ConsumerParses {
 			k = key{-1 - ii, policy} // (not part of the validation against real channels below)
 		}
 		if modelOutcomes[k] == nil {
@@ -306,6 +321,9 @@ func checkC18(w *Worker) {
 		polName := []string{"stop-at-first-error", "drain-until-done"}[policy]
 		if first != nil {
 			polName = "second-use-of-a-parser|" + polName
+		}
+		if c18ConsumerParses {
+			polName = "consumer-parses-between-receives|" + polName
 		}
 		rep := map[string]interface{}{"input": in.Name, "text": in.Text, "file": in.File, "fail_at": in.FailAt, "consumer": polName, "schedule": o.Trace, "consumer_saw": o.Events, "parked_at_end": o.Parked, "callback_parser_records": refEvents, "callback_parser_error": refErr}
 		ctx := fmt.Sprintf("input %s (%q%s), consumer %s, schedule %v\nconsumer saw: %v\ncallback parser: records %v, error %q", in.Name, in.Text, in.File, polName, o.Trace, o.Events, refEvents, refErr)
@@ -350,6 +368,12 @@ func checkC18(w *Worker) {
 		}
 	}
 	w.Explore("schedules", ExploreOpts{ShardDepth: 2}, one)
+	// a consumer that uses the callback parser on another (6 KB, partly malformed) input between two receives
+	w.Explore("consumer-parses-between-receives", ExploreOpts{ShardDepth: 2}, func(x *Exec) {
+		c18ConsumerParses = true
+		defer func() { c18ConsumerParses = false }()
+		one(x)
+	})
 	// a Parser value used for a second input (the package's own benchmark does): every input again, after one of four
 	// error-free first inputs that the same consumer drained until Done
 	w.Explore("second-use-of-a-parser", ExploreOpts{ShardDepth: 3}, func(x *Exec) {
